@@ -148,6 +148,35 @@ func (c *Ctx) heapNameObj(t types.Type) (string, string) {
 	return "H_" + sanitize(s), fmt.Sprintf("(Array Int %s)", s)
 }
 
+// heapNameField: struct objects on the heap are split into one heap per field
+// (Burstall-Bornat): H_<struct>.<field> : Ref -> field sort.
+func (c *Ctx) heapNameField(t types.Type, u *types.Struct, i int) (string, string) {
+	s := c.sortOf(t)
+	return "H_" + sanitize(s) + "." + sanitize(u.Field(i).Name()), fmt.Sprintf("(Array Int %s)", c.sortOf(u.Field(i).Type()))
+}
+
+// heapNamesOf lists the heap names an lvalue path lives in (for frames).
+func (c *Ctx) heapNameOfPath(p *Path) string {
+	switch p.Kind {
+	case rootHeap:
+		if u, ok := p.T.Underlying().(*types.Struct); ok && u.NumFields() > 0 {
+			if len(p.Steps) > 0 && !p.Steps[0].IsIdx {
+				n, _ := c.heapNameField(p.T, u, p.Steps[0].Field)
+				return n
+			}
+			return "H_" + sanitize(c.sortOf(p.T)) + ".*"
+		}
+		n, _ := c.heapNameObj(p.T)
+		return n
+	case rootArr:
+		n, _ := c.heapNameArr(p.T)
+		return n
+	case rootGlobal:
+		return globalName(p.Glob)
+	}
+	return ""
+}
+
 func (c *Ctx) heapNameArr(elem types.Type) (string, string) {
 	s := c.sortOf(elem)
 	return "HS_" + sanitize(s), fmt.Sprintf("(Array Int (Array %s %s))", c.idxSort(), s)
@@ -155,6 +184,14 @@ func (c *Ctx) heapNameArr(elem types.Type) (string, string) {
 
 func globalName(g *ssa.Global) string {
 	return "G_" + sanitize(g.Pkg.Pkg.Name()+"."+g.Name())
+}
+
+func heapStruct(p *Path) (*types.Struct, bool) {
+	if p.Kind != rootHeap {
+		return nil, false
+	}
+	u, ok := p.T.Underlying().(*types.Struct)
+	return u, ok && u.NumFields() > 0
 }
 
 // rootTerm returns the current value of the root object of a path.
@@ -167,6 +204,14 @@ func (c *Ctx) rootTerm(st *State, p *Path) string {
 		}
 		return t
 	case rootHeap:
+		if u, ok := heapStruct(p); ok {
+			var fs []string
+			for i := 0; i < u.NumFields(); i++ {
+				n, s := c.heapNameField(p.T, u, i)
+				fs = append(fs, fmt.Sprintf("(select %s %s)", c.heap(st, n, s), p.Ref))
+			}
+			return fmt.Sprintf("(mk_%s %s)", c.sortOf(p.T), strings.Join(fs, " "))
+		}
 		n, s := c.heapNameObj(p.T)
 		return fmt.Sprintf("(select %s %s)", c.heap(st, n, s), p.Ref)
 	case rootArr:
@@ -224,6 +269,15 @@ func (c *Ctx) setRoot(st *State, p *Path, term string) {
 	case rootCell:
 		st.cells[p.Cell] = term
 	case rootHeap:
+		if u, ok := heapStruct(p); ok {
+			name := c.sortOf(p.T)
+			for i := 0; i < u.NumFields(); i++ {
+				n, s := c.heapNameField(p.T, u, i)
+				h := c.heap(st, n, s)
+				st.heaps[n] = c.bind(n, fmt.Sprintf("(store %s %s (%s %s))", h, p.Ref, c.fieldSel(name, u, i), term), s)
+			}
+			return
+		}
 		n, s := c.heapNameObj(p.T)
 		h := c.heap(st, n, s)
 		st.heaps[n] = c.bind(n, fmt.Sprintf("(store %s %s %s)", h, p.Ref, term), s)
@@ -244,8 +298,17 @@ func (c *Ctx) load(st *State, p *Path) string {
 		return c.loadView(st, p)
 	}
 	t := c.rootType(p)
-	term := c.rootTerm(st, p)
-	for _, s := range p.Steps {
+	steps := p.Steps
+	var term string
+	if u, ok := heapStruct(p); ok && len(steps) > 0 && !steps[0].IsIdx {
+		n, s := c.heapNameField(p.T, u, steps[0].Field)
+		term = fmt.Sprintf("(select %s %s)", c.heap(st, n, s), p.Ref)
+		t = u.Field(steps[0].Field).Type()
+		steps = steps[1:]
+	} else {
+		term = c.rootTerm(st, p)
+	}
+	for _, s := range steps {
 		switch u := t.Underlying().(type) {
 		case *types.Struct:
 			term = fmt.Sprintf("(%s %s)", c.fieldSel(c.sortOf(t), u, s.Field), term)
@@ -262,6 +325,15 @@ func (c *Ctx) load(st *State, p *Path) string {
 func (c *Ctx) store(st *State, p *Path, v string) {
 	if p.View != nil {
 		c.storeView(st, p, v)
+		return
+	}
+	if u, ok := heapStruct(p); ok && len(p.Steps) > 0 && !p.Steps[0].IsIdx {
+		fi := p.Steps[0].Field
+		n, s := c.heapNameField(p.T, u, fi)
+		h := c.heap(st, n, s)
+		cur := fmt.Sprintf("(select %s %s)", h, p.Ref)
+		nt := c.update(u.Field(fi).Type(), cur, p.Steps[1:], v)
+		st.heaps[n] = c.bind(n, fmt.Sprintf("(store %s %s %s)", h, p.Ref, nt), s)
 		return
 	}
 	root := c.rootTerm(st, p)
